@@ -10,7 +10,11 @@ GEN_FILES = ["Gen_tern.v"]
 RULE = ("random lint-clean blackbox-free acyclic circuits (1-5 inputs, 1-8 gates of all 8 gate types, fan-in 1-4, constants 0/1, "
         "outputs on inputs/gates), node insertion order shuffled (gates before their fan-in included), name pools that collide with "
         "the helper/companion names (a_X, a_X_0, g_x_in_fi, a_is_0, a_is_1_0, a_not_x ...), sized so that the result stays <= 46 nodes; "
-        "plus a rejection stream (blackbox, x constant, blackbox-typed node, undriven buf). Per case ALL 4^|inputs| (value, X-flag) "
+        "plus a rejection stream (blackbox, x constant, blackbox-typed node, undriven buf); plus two-call histories on ONE Circuit "
+        "object (call; then edit c in place [add a gate, also under a name equal to a companion/helper name of the first encoding; retype a "
+        "gate; toggle an output] or edit the first result [tie a companion to 0 as the library's test does, retype, add, remove]; call "
+        "again): the SECOND result is judged against the circuit as it is at that call and must share no object with the first result "
+        "or c. Per case ALL 4^|inputs| (value, X-flag) "
         "input patterns are simulated in Coq. non-trivial = at least one multi-input gate with a gate or constant in its fan-in "
         "or >= 3 gates; distinct = canonical input + node order")
 EXPLANATION = ("Kleene soundness of the dual-rail gadgets proved for all gate types and arities over regenerated gate-type table; "
@@ -78,13 +82,128 @@ def gen_reject(rng):
     return {"kind": "reject:" + k, "circuit": d}
 
 
+SWAP = {"and": ["nand", "or", "nor", "xor"], "nand": ["and", "or", "xnor"], "or": ["nor", "and", "xor"], "nor": ["or", "nand", "xnor"],
+        "xor": ["xnor", "and", "or"], "xnor": ["xor", "nand", "nor"], "buf": ["not"], "not": ["buf"]}
+
+
+def gen_history(rng, tier):
+    base = gen_valid(rng, tier)
+    d = base["circuit"]
+    while est_size(d) > 38 or len(d["nodes"]) > 11:
+        base = gen_valid(rng, tier)
+        d = base["circuit"]
+    names = [n[0] for n in d["nodes"]]
+    gates = [n for n in d["nodes"] if n[1] in lib.GATES]
+    ins = lib.inputs_of(d)
+    r = rng.random()
+    if r < 0.55:
+        op = rng.choice(["add_gate", "add_gate", "add_gate_colliding", "retype", "toggle_output"])
+        if op == "retype" and not gates:
+            op = "add_gate"
+        if op in ("add_gate", "add_gate_colliding"):
+            if op == "add_gate_colliding":      # the name the first encoding used for a companion or helper node
+                base_n = rng.choice(names)
+                new = base_n + rng.choice(["_X", "_is_0", "_is_1", "_not_x", "_x_in_fi", "_0_not_in_fi", "_1_not_in_fi"])
+            else:
+                new = "hx"
+            while new in names:
+                new += "q"
+            ty = rng.choice(lib.MULTI + ["not", "buf"])
+            k = 1 if ty in lib.SINGLE else rng.randint(2, min(3, len(names))) if len(names) >= 2 else 1
+            edit = {"on": "c", "op": "add_gate", "name": new, "type": ty, "fanin": sorted(rng.sample(names, k)), "output": True}
+        elif op == "retype":
+            g = rng.choice(gates)
+            edit = {"on": "c", "op": "retype", "name": g[0], "type": rng.choice(SWAP[g[1]])}
+        else:
+            n = rng.choice(d["nodes"])
+            edit = {"on": "c", "op": "set_output", "name": n[0], "output": not n[2]}
+    else:
+        op = rng.choice(["tie_companion", "tie_companion", "retype_companion", "remove_companion", "add_node", "retype_original"])
+        if op == "retype_original" and not gates:
+            op = "tie_companion"
+        if op == "tie_companion":
+            edit = {"on": "result", "op": "set_type", "of": "companion", "name": rng.choice(ins), "type": "0"}
+        elif op == "retype_companion":
+            edit = {"on": "result", "op": "set_type", "of": "companion", "name": rng.choice(names), "type": rng.choice(["or", "and", "nor", "input"])}
+        elif op == "remove_companion":
+            edit = {"on": "result", "op": "remove", "of": "companion", "name": rng.choice(names)}
+        elif op == "add_node":
+            edit = {"on": "result", "op": "add", "name": "extra_in", "type": "input"}
+        else:
+            g = rng.choice(gates)
+            edit = {"on": "result", "op": "set_type", "of": "node", "name": g[0], "type": rng.choice(SWAP[g[1]])}
+    return {"kind": "history", "circuit": d, "edit": edit}
+
+
 def generate(rng, tier):
-    n = 110 if tier == "quick" else 150
-    return [gen_valid(rng, tier) for _ in range(n)] + [gen_reject(rng) for _ in range(max(8, n // 12))]
+    n = 90 if tier == "quick" else 150
+    h = 30 if tier == "quick" else 60
+    return ([gen_valid(rng, tier) for _ in range(n)] + [gen_reject(rng) for _ in range(max(8, n // 12))]
+            + [gen_history(rng, tier) for _ in range(h)])
+
+
+def _apply_edit(c, t1, m1, e):
+    if e["on"] == "c":
+        if e["op"] == "add_gate":
+            c.add(e["name"], e["type"], fanin=e["fanin"], output=e["output"])
+        elif e["op"] == "retype":
+            c.set_type(e["name"], e["type"])
+        else:
+            c.set_output(e["name"], e["output"])
+        return
+    target = m1[e["name"]] if e.get("of") == "companion" else e["name"]
+    if e["op"] == "set_type":
+        if e["type"] in ("0", "input"):
+            t1.disconnect(t1.fanin(target), target)
+        t1.set_type(target, e["type"])
+    elif e["op"] == "remove":
+        t1.remove(target)
+    else:
+        t1.add(t1.uid(e["name"]), e["type"])
+
+
+def _shares(t2, m2, t1, m1, c):
+    """names of objects the second result shares with the first result or with the argument"""
+    sh = []
+    if t2 is t1 or t2 is c:
+        sh.append("circuit")
+    if t2.graph is t1.graph or t2.graph is c.graph:
+        sh.append("graph")
+    if m2 is m1:
+        sh.append("mapping")
+    if t2.blackboxes is t1.blackboxes or t2.blackboxes is c.blackboxes:
+        sh.append("blackboxes")
+    for g in (t1.graph, c.graph):
+        if any(n in g.nodes and t2.graph.nodes[n] is g.nodes[n] for n in t2.graph.nodes):
+            sh.append("node-attributes")
+            break
+    return sh
+
+
+def impl_history(case):
+    import circuitgraph as cg
+    c = lib.build_circuit(case["circuit"])
+    try:
+        t1, m1 = cg.tx.ternary(c)
+        first = {"out": lib.dump_circuit(t1), "mapping": sorted(m1.items())}
+    except Exception as e:
+        return {"first_exc": type(e).__name__, "c2": case["circuit"], "nodes": [], "fos": [], "exc": type(e).__name__, "shares": []}
+    _apply_edit(c, t1, m1, case["edit"])
+    c2 = lib.dump_circuit(c)
+    nodes = list(c.graph.nodes)
+    fos = [[n, list(c.fanin(n))] for n in nodes]
+    try:
+        t2, m2 = cg.tx.ternary(c)
+    except Exception as e:
+        return {"c2": c2, "nodes": nodes, "fos": fos, "exc": type(e).__name__, "shares": [], "first": first}
+    return {"c2": c2, "nodes": nodes, "fos": fos, "out": lib.dump_circuit(t2), "mapping": sorted(m2.items()),
+            "shares": _shares(t2, m2, t1, m1, c), "arg_unchanged": lib.dump_circuit(c) == c2, "first": first}
 
 
 def impl(case):
     import circuitgraph as cg
+    if case["kind"] == "history":
+        return impl_history(case)
     c = lib.build_circuit(case["circuit"])
     before = lib.dump_circuit(c)
     # iteration orders that decide the uid suffixes of helper nodes, recorded right before the call in this process
@@ -105,10 +224,14 @@ def to_coq(case, obs):
         r = f"(Raise {e})"
     else:
         r = "(Ok (%s,%s))" % (ccirc(obs["out"]), cl("(%s,%s)" % (cs(k), cs(v)) for k, v in obs["mapping"]))
+    if case["kind"] == "history":
+        return f"CHist {ccirc(obs['c2'])} {csl(obs['nodes'])} {fos} {r} {lib.cb(not obs['shares'])}"
     return f"CTern {ccirc(case['circuit'])} {csl(obs['nodes'])} {fos} {r}"
 
 
 def nontrivial(case, obs):
+    if case["kind"] == "history":
+        return "out" in obs and len(case["circuit"]["nodes"]) >= 3
     if case["kind"] != "valid" or "out" not in obs:
         return False
     nodes = case["circuit"]["nodes"]
@@ -120,6 +243,12 @@ def nontrivial(case, obs):
 
 def classify(case, obs):
     out = [case["kind"] + (":exc=" + obs["exc"] if "exc" in obs else "")]
+    if case["kind"] == "history":
+        e = case["edit"]
+        out.append("history:" + e["on"] + ":" + e["op"] + (":" + e["of"] if "of" in e else ""))
+        if obs.get("shares"):
+            out.append("history:shares:" + ",".join(obs["shares"]))
+        return out
     if case["kind"] == "valid":
         for n, t, o, fi in case["circuit"]["nodes"]:
             if t in lib.GATES:
@@ -142,7 +271,7 @@ def finding_signature(case, obs):
 
 
 def mutate_case(rng, case):
-    return gen_valid(rng, "quick")
+    return gen_history(rng, "quick") if case.get("kind") == "history" else gen_valid(rng, "quick")
 
 
 CLAIMED = True
